@@ -27,6 +27,8 @@ var c13Ticks int64
 
 func c13Ctx(cv string) pongo2.Context {
 	return pongo2.Context{"cv": cv, "num": 42, "neg": -3, "stringer": ZStr(cv),
+		// context keys named like macro parameters: a parameter (also an omitted one) shadows them
+		"p0": "CTX-p0", "p2": "CTX-p2", "p3": 33,
 		"tick": func() string { atomic.AddInt64(&c13Ticks, 1); return "" },
 		"z40":  make([]int, 40), "one": []int{1}}
 }
